@@ -47,6 +47,14 @@ class Prop(WalletProp):
         for iv in ((H - 2, H), (H - 1, H + 1), (H, H + 1), (H + 1, H - 2, -1), (H, H - 3, -1), (H - 1, H - 4, -1), (0, 3), (3, 0, -1),
                    (H - 2, H + 3, 2), (H + 5, H + 1, -2), (2 ** 32 - 1, 2 ** 32), (0, 0), (5, 2)):
             cases.append({"kind": "WatchGen", "w": w, "export": [84 + H, H, H], "v": PUBV[False][0], "sub": [0], "interval": list(iv)})
+        # export nodes whose depth byte has the high bit set (128, 200, 254) or is 127 / 255-1: metadata must survive the xpub
+        for j, depth in enumerate((127, 128, 129, 200, 253)):
+            testnet = j % 2 == 1
+            wd = self.rand_wspec(rng, testnet)
+            en = {"key": rng.randrange(1, 2 ** 255).to_bytes(32, "big").hex(), "chain": bytes(rng.randrange(256) for _ in range(32)).hex(),
+                  "depth": depth, "index": rng.choice([0, 7, H + 3]), "pfpr": bytes(rng.randrange(256) for _ in range(4)).hex()}
+            for sub in ([], [0], [1, 2]):
+                cases.append({"kind": "Watch", "w": wd, "export": [], "export_node": en, "v": PUBV[testnet][j % 3], "sub": sub})
         # the sub-path handed to derive_path as a tuple / one-shot iterable instead of a list
         for form in ("iter", "gen", "tuple", "map"):
             cases.append({"kind": "Watch", "w": w, "export": [84 + H, H, H], "v": PUBV[False][0], "sub": [0, 3], "path_form": form})
